@@ -55,10 +55,14 @@ class Impl:
     def get(self, srv, ty):
         return self.table(srv)[self.map[self.pt[ty]]]
 
-    def call(self, srv, ty, n, trunc):
+    def call(self, srv, ty, n, trunc, authentic=True):
+        """what decrypt_packet does with the packet number of a packet: reconstruct it and — for a packet that passes the
+        AEAD check — let it move the largest number of its space (one method before /repo 45c871e, two since)"""
         pkt = types.SimpleNamespace(isserver=bool(srv), packet_type=self.pt[ty],
                                     packet_num=trunc.to_bytes(n, "big"))
         out = self.s.get_full_packet_number(pkt)
+        if authentic and hasattr(self.s, "set_largest_packet_number"):
+            self.s.set_largest_packet_number(pkt, out)
         return int.from_bytes(out, "big")
 
 
@@ -178,6 +182,22 @@ def run_histories(ctx, impl, hs, point):
         largest = {}
         for (srv, ty, n, t) in h:
             key = (srv, SPACE[ty])
+            if ctx.rng.random() < 0.15:
+                # a packet that does NOT pass the AEAD check (wrong keys, damage): RFC 9000 A.3's largest_pn is the largest
+                # SUCCESSFULLY processed number, so the entry must stay
+                n2 = ctx.rng.choice([1, 2, 3, 4])
+                t2 = ctx.rng.randrange(1 << (8 * n2))
+                try:
+                    impl.call(srv, ty, n2, t2, authentic=False)
+                    after = impl.get(srv, ty)
+                except Exception as e:  # noqa
+                    after = f"crash:{type(e).__name__}"
+                if after != largest.get(key, 0):
+                    ctx.fail("C16:{history}:unauthenticated-moves-largest",
+                             "a packet that fails authentication moved the largest packet number of its space",
+                             {"history": h, "at": len(lines) - 1, "rejected": [srv, ty, n2, t2]},
+                             expected=largest.get(key, 0), actual=after)
+                    break
             want = rfc_a3(largest.get(key, 0), t, 8 * n)
             try:
                 got = impl.call(srv, ty, n, t)
